@@ -11,6 +11,7 @@ import copy
 import json
 import random
 
+from sim.runner import H
 from sim import child, gen
 
 ID = 'C08'
@@ -620,7 +621,7 @@ def make_machine(stats, box):
 
         def teardown(self):
             if self.model is not None:
-                box['paths'].add(hash(tuple(self.model.path)) & 0xFFFFFFFFFFFF)
+                box['paths'].add(H(tuple(self.model.path)) & 0xFFFFFFFFFFFF)
                 if any(f for f in self.model.path if f[0]):
                     box['nontrivial'] += 1
                 for k, v in self.model.probes.items():
